@@ -520,6 +520,22 @@ func (c *vfC19Checker) readAll(current *vfC19Rev, leaves []*vfC19Rev, old []*vfC
 		}
 		c.doc(what, rows.Vals[0].Get("doc"), current, false)
 	}
+	// the stored bytes of the current revision, read from the bucket directly
+	if !current.Deleted {
+		what := "raw-bucket-read"
+		if raw, _, err := e.rt.GetSingleDataStore().GetRaw(e.ctx, c.docID); err == nil {
+			*c.ops = append(*c.ops, "bucket GetRaw "+strconv.Quote(c.docID))
+			v := c.raw(what, raw)
+			if v.Kind != 'o' {
+				c.fail("%s: stored document is not an object: %s", what, vfC19Clip(string(raw)))
+			}
+			if d := vfC19Equal(current.Body, v.Without(vfC19Added)); d != "" {
+				c.fail("%s: body written by %s differs from the stored body: %s\nwritten: %s\nstored:  %s", what, current.Path, d, current.Text, vfC19Clip(string(raw)))
+			}
+			c.reads++
+			c.paths[what] = true
+		}
+	}
 	// _changes?include_docs=true since the position before this case
 	c.changes(current)
 }
@@ -653,9 +669,9 @@ func TestVerif_C19_RestPaths(t *testing.T) {
 		defer vfC19Inconclusive(rt, rec)
 		var ops []string
 		classes0 := ""
-		shape := rapid.SampledFrom([]string{"single", "single", "single", "update", "update", "conflict", "resurrect", "autoimport"}).Draw(rt, "shape")
+		shape := rapid.SampledFrom([]string{"single", "single", "single", "update", "update", "conflict", "resurrect", "autoimport", "promote", "promote"}).Draw(rt, "shape")
 		e := e0
-		if shape == "conflict" {
+		if shape == "conflict" || shape == "promote" {
 			e = ec
 			ops = append(ops, "(gateway in legacy allow_conflicts mode)")
 		}
@@ -714,6 +730,9 @@ func TestVerif_C19_RestPaths(t *testing.T) {
 				w1 = "autoimport"
 			}
 			b1, st1 := mk(w1, shape == "single")
+			if shape == "promote" && b1.Get("c19big") == nil {
+				b1.Set("c19big", vfC19Num(rapid.SampledFrom(vfC19PromoteNums).Draw(rt, "big1")))
+			}
 			exp1 := drawExp(w1)
 			res, text, esc := e.write(w1, docID, b1, st1, "", "1-"+rapid.SampledFrom([]string{"abc", "0a0a", "fed"}).Draw(rt, "d1"), exp1, &ops)
 			rev1 := record(res, b1, text, w1, esc, exp1 != nil)
@@ -761,6 +780,60 @@ func TestVerif_C19_RestPaths(t *testing.T) {
 					rev2.HasExp = false
 					rev1.HasExp = false
 				}
+			case "promote":
+				// A conflicted document whose NON-winning leaf holds the generated body; the winning
+				// branch is then tombstoned, so the other leaf's body is promoted from the revision tree
+				// to the document body. The revision cache is dropped before reading, so every read
+				// sees what was stored.
+				var loser, winTip *vfC19Rev
+				variant := rapid.SampledFrom([]string{"loser-first/sibling", "loser-first/longer", "winner-first/sibling", "winner-first/longer"}).Draw(rt, "pvariant")
+				classes = append(classes, "promote="+variant)
+				wn := rapid.SampledFrom([]string{"bulk-noedits", "PUT-noedits"}).Draw(rt, "w2")
+				big := vfC19Num(rapid.SampledFrom(vfC19PromoteNums).Draw(rt, "big"))
+				if strings.HasPrefix(variant, "loser-first") {
+					// rev1 (written above) is the loser: give the document a second, winning branch
+					loser = rev1
+					b2, st2 := mk(wn, false)
+					forced, parent := "1-ffffffffffffffffffffffffffffffffffff", ""
+					if strings.HasSuffix(variant, "longer") {
+						forced, parent = "2-fff", "1-dead"
+					}
+					res, text, esc := e.write(wn, docID, b2, st2, parent, forced, nil, &ops)
+					winTip = record(res, b2, text, wn, esc, false)
+				} else {
+					// rev1 is the winner (optionally extended to generation 2); the loser arrives second
+					winTip = rev1
+					if strings.HasSuffix(variant, "longer") {
+						bx, stx := mk("PUT", false)
+						res, text, esc := e.write("PUT", docID, bx, stx, rev1.RevID, "", nil, &ops)
+						winTip = record(res, bx, text, "PUT", esc, false)
+					}
+					b2, st2 := mk(wn, false)
+					if b2.Get("c19big") == nil {
+						b2.Set("c19big", big)
+					}
+					res, text, esc := e.write(wn, docID, b2, st2, "", "1-0", nil, &ops)
+					loser = record(res, b2, text, wn, esc, false)
+				}
+				cur, _, code := e.current(docID)
+				if code != 200 || cur != winTip.RevID {
+					c.fail("expected %s to be the winning revision before the tombstone, GET says %s (status %d)", winTip.RevID, cur, code)
+				}
+				p := vfC19Path(docID) + "?rev=" + url.QueryEscape(winTip.RevID)
+				ops = append(ops, "DELETE "+p)
+				dr := e.do("DELETE", p, "", nil)
+				dv, err := vfC19Decode(dr.Body)
+				if dr.Code != 200 || err != nil || dv.Get("rev") == nil {
+					c.fail("DELETE of the winning revision answered %d %s", dr.Code, vfC19Clip(string(dr.Body)))
+				}
+				tomb := &vfC19Rev{RevID: dv.Get("rev").Str, Body: vfC19Obj(), Text: "(DELETE)", Path: "DELETE", Deleted: true}
+				ops = append(ops, "flush revision cache")
+				e.rt.GetDatabase().FlushRevisionCacheForTest()
+				current, leaves, old = loser, []*vfC19Rev{loser, tomb}, nil
+				for _, r := range []*vfC19Rev{rev1, loser, winTip} {
+					r.HasExp = false
+				}
+				c.expSet = true
 			case "resurrect":
 				// tombstone, then a disconnected live branch (allowed in conflict-free mode): two leaves
 				p := vfC19Path(docID) + "?rev=" + url.QueryEscape(rev1.RevID)
@@ -843,6 +916,9 @@ func vfC19RegressBlankObject(e *vfC19Env) {
 		kit.KnownFinding("C19", vfC19SigBlankObject, fmt.Sprintf("external write of `{ }` + import, then GET /_all_docs?include_docs=true&keys=[id] answers %d %s", r.Code, strings.Join(strings.Fields(vfC19Clip(string(r.Body))), " ")))
 	}
 }
+
+// numbers a float64 does not hold exactly, one of which every promoted body carries
+var vfC19PromoteNums = []string{"9007199254740993", "-9007199254740993", "18446744073709551615", "18446744073709551617", "123456789012345678901234567890", "9223372036854775807", "0.30000000000000004123", "123456789012345678901234567890.123456789"}
 
 func vfC19Min(a, b int) int {
 	if a < b {
